@@ -166,13 +166,20 @@ pub fn strategy(defs_in_loop: bool) -> impl Strategy<Value = Case> {
 }
 
 pub fn run_check(ctx: &mut Ctx) {
-    ctx.rule = "generator programs with .loop (count 0-4, `index` uses), .if/else on constant conditions, macros (0-2 parameters, invoked from anywhere incl. loops), pure constants, nested to depth 3, with outer and forward references in bodies; each program P is compared with expand_k(P) for k in {loops, ifs, macros, constants, all}: both assemble or both are rejected, and segment images are identical; expand_all(P) and P are additionally checked against the reference layout model. non-trivial = assembled, something expanded and (nesting >= 2 or a forward reference)".into();
+    ctx.rule = "generator programs with .loop (count 0-4, `index` uses), .if/else on constant conditions, macros (0-2 parameters, invoked from anywhere incl. loops), pure constants, nested to depth 3, with outer and forward references in bodies; each program P is compared with expand_k(P) for k in {loops, ifs, macros, constants, all}: both assemble or both are rejected, and segment images are identical; expand_all(P) and P are additionally checked against the reference layout model. Two further campaigns build a program together with its hand expansion: projects of main.asm + lib.asm with one or two imports (`*`, `* as ns`, selected names with/without `as`, parameter blocks, at the top level or in a scope, uses before and after, private names of the imported file that coincide with names of the importing file, labelled blocks that refer to themselves, to private constants, macros and the parameters) against the imported text in a named scope at the import site; and macro invocations of which some sit in an `.if` on a label (the number of invocations differs between passes; macros with constants/parameters named like globals or like another macro's, `-`/`+` in bodies) against the bodies in braces. non-trivial = assembled, something expanded and (nesting >= 2 or a forward reference)".into();
     ctx.assumptions.push("model/expand.rs implements the documented meaning: loop body repeated in its own braces with index replaced, the selected branch inline, macro body in braces with parameters as constants, constants replaced by parenthesised values".into());
     let n = ctx.tier.pick(15_000, 400_000);
     ctx.campaign_parallel("no-definitions-in-loop-bodies", n, 16, || strategy(false), prop, to_json);
     let n2 = ctx.tier.pick(15_000, 400_000);
     ctx.campaign_parallel("with-definitions-in-loop-bodies", n2, 16, || strategy(true), prop, to_json);
     let total = ctx.evaluations.max(1);
+    // programs that are built together with their hand expansion (imports; macro invocations that come and go between passes)
+    let n3 = ctx.tier.pick(12_000, 300_000);
+    ctx.campaign_parallel("imports", n3, 16, || crate::props::c07x::strategy(0), crate::props::c07x::prop, crate::props::c07x::to_json);
+    let n4 = ctx.tier.pick(8_000, 200_000);
+    ctx.campaign_parallel("macro-calls-under-label-conditions", n4, 16, || crate::props::c07x::strategy(1), crate::props::c07x::prop, crate::props::c07x::to_json);
+    let xa = ctx.label_count("expansion-assembled");
+    ctx.health(xa * 100 / ((n3 + n4) as u64).max(1) >= 80, format!("hand expansions that assemble: {} of {}", xa, n3 + n4));
     let k = ctx.label_count("nesting>=2");
     ctx.health(k * 100 / total >= 10, format!("nesting >= 2 in {}%", k * 100 / total));
     let e = ctx.label_count("expanded-something");
@@ -180,6 +187,16 @@ pub fn run_check(ctx: &mut Ctx) {
 }
 
 pub fn replay(ctx: &mut Ctx, case: &serde_json::Value) {
+    if let Some(k) = case.get("x_kind").and_then(|k| k.as_u64()) {
+        match serde_json::from_value::<Vec<u32>>(case["entropy"].clone()) {
+            Ok(entropy) => {
+                let c = crate::props::c07x::Case { kind: k as u8, entropy };
+                ctx.replay_one(&c, crate::props::c07x::prop, case.clone());
+            }
+            Err(e) => ctx.health(false, format!("replay case does not deserialize: {}", e)),
+        }
+        return;
+    }
     let c: Case = match serde_json::from_value(json!({"entropy": case["entropy"], "defs_in_loop": case["defs_in_loop"]})) {
         Ok(c) => c,
         Err(e) => {
